@@ -686,6 +686,78 @@ def mutate_xml(xml, rng, nmut=None):
     return out, ";".join(desc) or "noop"
 
 
+def typed_attribute_sweep(xml, cap_per_kind=400):
+    """Deterministic single-attribute edits with values from the attribute's own domain: presence x every element that
+    can carry it (with and without valueRef / text), primitiveType x every <type>, encodingType x every <enum>/<set>,
+    type x every <field>/<ref>/<data> and dimensionType x every <group> (every public name and every primitive),
+    byteOrder, numeric attributes set to 0/1/empty.  Yields (description, xml bytes)."""
+    root = ET.fromstring(xml)
+    elems = _all(root)
+    names = sorted({e.get("name") for e in elems if e.get("name") and e.tag in ("type", "composite", "enum", "set")})
+    enums = [e for e in elems if e.tag == "enum" and e.get("name")]
+    prims = list(PRIM_SIZE)
+    out = []
+
+    cands = {}
+
+    def emit(i, desc, fn):
+        cands.setdefault(desc.split("=", 1)[0], []).append((i, desc, fn))
+
+    counts = {}
+
+    def room(kind):
+        return True
+
+    for i, e in enumerate(elems):
+        tag = e.tag.split("}")[-1]
+        if tag in ("field", "type", "ref", "enum", "set", "composite", "data", "group"):
+            for pres in ("required", "optional", "constant"):
+                if e.get("presence") == pres or not room("presence"):
+                    continue
+                emit(i, "presence=%s@%s %s" % (pres, tag, e.get("name")), lambda x, p=pres: x.set("presence", p))
+                if pres == "constant":
+                    if enums:
+                        ev = enums[0].find("validValue")
+                        vr = "%s.%s" % (enums[0].get("name"), ev.get("name") if ev is not None else "A")
+                        emit(i, "presence=constant+valueRef@%s %s" % (tag, e.get("name")),
+                             lambda x, v=vr: (x.set("presence", "constant"), x.set("valueRef", v)))
+                    emit(i, "presence=constant+text@%s %s" % (tag, e.get("name")),
+                         lambda x: (x.set("presence", "constant"), setattr(x, "text", "1")))
+        if tag == "type" and room("primitiveType"):
+            for p in prims:
+                if p != e.get("primitiveType"):
+                    emit(i, "primitiveType=%s@type %s" % (p, e.get("name")), lambda x, p=p: x.set("primitiveType", p))
+        if tag in ("enum", "set") and room("encodingType"):
+            for p in prims + names[:6]:
+                if p != e.get("encodingType"):
+                    emit(i, "encodingType=%s@%s %s" % (p, tag, e.get("name")), lambda x, p=p: x.set("encodingType", p))
+        if tag in ("field", "ref", "data") and room("type"):
+            for p in prims[:4] + names:
+                if p != e.get("type"):
+                    emit(i, "type=%s@%s %s" % (p, tag, e.get("name")), lambda x, p=p: x.set("type", p))
+        if tag == "group" and room("dimensionType"):
+            for p in prims[:2] + names:
+                emit(i, "dimensionType=%s@group %s" % (p, e.get("name")), lambda x, p=p: x.set("dimensionType", p))
+        for a in ("length", "offset", "blockLength", "id", "sinceVersion", "deprecated"):
+            if a in e.attrib and room("numeric:" + a):
+                for v in ("", "0", "1", "+1", "01", "-0", "1.0", "1e2"):
+                    if v != e.get(a):
+                        emit(i, "%s=%r@%s %s" % (a, v, tag, e.get("name")), lambda x, a=a, v=v: x.set(a, v))
+    for bo in ("bigEndian", "littleEndian", "BigEndian", "", "middleEndian"):
+        emit(0, "byteOrder=%r" % bo, lambda x, b=bo: x.set("byteOrder", b))
+    # per attribute kind an evenly spread subset over the whole document (types, composites and messages alike)
+    for kind in sorted(cands):
+        lst = cands[kind]
+        if kind != "presence" and len(lst) > cap_per_kind:      # presence x element kind is swept completely
+            step = len(lst) / float(cap_per_kind)
+            lst = [lst[int(k * step)] for k in range(cap_per_kind)]
+        for i, desc, fn in lst:
+            r2 = ET.fromstring(xml)
+            fn(_all(r2)[i])
+            out.append((desc, ET.tostring(r2, encoding="utf-8", xml_declaration=True)))
+    return out
+
+
 def _ancestors(e, pm):
     out = set()
     while e in pm:
